@@ -49,6 +49,7 @@ PeerInit(NP, N, spec) ==
     calls  |-> 0,                       \* ticks/polls since the last drain
     lastWaitCur |-> -1000,
     alive  |-> TRUE,
+    desyFirst |-> -1,                   \* first frame reported by a DesyncDetected event
     lastRes |-> "",                     \* result of the peer's last advance_frame
     mark   |-> -1000000,                \* current frame when the fault phase ended (C05)
     nadv   |-> 0 ]
@@ -71,10 +72,15 @@ InitRun(c, viol, stats, run) ==
        catchup |-> Get(c, "catchup", 1),
        maxDelay |-> Get(c, "max_delay", 8),
        corrupt |-> \E p \in 0..N-1 : Has(pc[p], "corrupt_from"),
+       corruptFrom |-> IF \E p \in 0..N-1 : Has(pc[p], "corrupt_from")
+                       THEN pc[CHOOSE p \in 0..N-1 : Has(pc[p], "corrupt_from")].corrupt_from ELSE -1,
        transient |-> Get(c, "transient", FALSE),   \* every fault of this run ends before the timeout
        marked |-> FALSE, minProgress |-> 0,
+       cf |-> [p \in 0..N-1 |-> Get(pc[p], "corrupt_from", 1000000000)],  \* game of p is corrupt from this frame
        owner |-> owner,
        isSpec |-> [p \in 0..N-1 |-> ~isP2P(p)],
+       specs |-> [p \in 0..N-1 |-> SelectSeq([i \in 1..N |-> i - 1],
+                                             LAMBDA q : ~isP2P(q) /\ Get(pc[q], "host", 0) = p)],
        host |-> [p \in 0..N-1 |-> Get(pc[p], "host", 0)],
        nlocals |-> [p \in 0..N-1 |-> IF isP2P(p) THEN Len(pc[p].locals) ELSE 0],
        truth |-> [h \in 0..NP-1 |-> TruthInit(Get(pc[owner[h]], "delay", 0))],
@@ -188,7 +194,8 @@ ReqStep(gg, p, r, acc, rq) ==
       [] k = "A" ->
            LET f   == pe.gf
                ins == rq[2]
-               nh  == Chain(pe.gh, ins)
+               nh0 == Chain(pe.gh, ins)
+               nh  == IF f >= gg.cf[p] THEN (nh0 + 17) % HashMod ELSE nh0   \* the harness' deliberate divergence
                changed == f \in DOMAIN pe.sim /\ \E i \in 1..Min2(Len(ins), Len(pe.sim[f])) : pe.sim[f][i][1] # ins[i][1]
            IN [acc EXCEPT
                  !.vs = @ \o AdvViol(gg, p, pe, f, ins, r),
@@ -422,7 +429,14 @@ EvFold(gg, p, r, acc, e) ==
                           V("C15", r.n, "wait-recommendations-too-close", <<p, pe.cur, pe.lastWaitCur>>)),
          !.pe.lastWaitCur = IF exact THEN pe.cur ELSE @]
     ELSE IF k = "Desy" THEN
-      [acc EXCEPT !.vs = @ \o When(~gg.corrupt, V("C09", r.n, "desync-reported-for-deterministic-game", <<p, e[2], e[3]>>))]
+      \* <<"Desy", addr, frame, local, remote, really-saved-local, really-saved-remote>>
+      [acc EXCEPT
+         !.vs = @ \o When(~gg.corrupt, V("C09", r.n, "desync-reported-for-deterministic-game", <<p, e[2], e[3]>>))
+                  \o When(gg.corrupt /\ e[3] <= gg.corruptFrom,
+                          V("C09", r.n, "desync-reported-before-the-divergence", <<p, e[3], gg.corruptFrom>>))
+                  \o When(gg.corrupt /\ Len(e) >= 7 /\ ((e[6] >= 0 /\ e[4] # e[6]) \/ (e[7] >= 0 /\ e[5] # e[7])),
+                          V("C09", r.n, "desync-event-carries-wrong-checksums", <<p, e[3], e[4], e[6], e[5], e[7]>>)),
+         !.pe.desyFirst = IF pe.desyFirst = -1 THEN e[3] ELSE Min2(pe.desyFirst, e[3])]
     ELSE acc
 
 \* after a drain directly following a call: interruptions / disconnects that were due
@@ -464,7 +478,13 @@ OtherPeerLine(gg, r) ==
       isPanic == IsPanic(r.r)
       g1 == IF r.a = "dly" /\ r.r = "ok" /\ r.h \in DOMAIN gg.truth
             THEN [gg EXCEPT !.truth[r.h] = SetDelay(@, r.d)] ELSE gg
-      g2 == IF Has(r, "st") THEN [g1 EXCEPT !.pr[p].stat = [h \in 0..gg.NP-1 |-> r.st[h+1]]] ELSE g1
+      g2a == IF Has(r, "st") THEN [g1 EXCEPT !.pr[p].stat = [h \in 0..gg.NP-1 |-> r.st[h+1]]] ELSE g1
+      \* an explicit disconnect_player ends the life cycle of that address without any event
+      dq == IF r.a = "disc" /\ r.r = "ok"
+            THEN IF r.h < gg.NP THEN gg.owner[r.h]
+                 ELSE IF r.h - gg.NP + 1 <= Len(gg.specs[p]) THEN gg.specs[p][r.h - gg.NP + 1] ELSE -1
+            ELSE -1
+      g2 == IF dq >= 0 THEN [g2a EXCEPT !.pr[p].evs[dq] = <<"disc", 0>>] ELSE g2a
   IN AddViol(g2, When(isPanic, V("PANIC", r.n, r.r, <<p>>))
                  \o (IF Has(r, "buf") /\ ~gg.isSpec[p] THEN BufViol(gg, p, r) ELSE <<>>))
 
@@ -486,6 +506,21 @@ PanicLine(gg, r) ==
   AddViol([gg EXCEPT !.pr[r.p].alive = FALSE, !.stats.panics = @ + 1],
           V("PANIC", r.n, r.r, <<r.p, r.a>>))
 
+\* C09 detection half: a real divergence from frame corruptFrom on is reported to every peer for
+\* a frame at or after it, within a few reporting intervals
+RECURSIVE DetectV(_, _)
+DetectV(gg, p) ==
+  IF p >= gg.N THEN <<>>
+  ELSE LET pe == gg.pr[p]
+           I  == gg.desync
+           firstBad == gg.corruptFrom + 1                     \* first frame whose saved state differs
+           m  == ((firstBad + I - 1) \div I) * I               \* first report frame at or after it
+       IN When(~gg.isSpec[p] /\ pe.alive /\ I > 0 /\ pe.desyFirst = -1 /\ pe.conf > m + 3 * I + 2,
+               V("C09", 0, "divergence-not-detected", <<p, gg.corruptFrom, pe.conf>>))
+          \o When(~gg.isSpec[p] /\ pe.alive /\ I > 0 /\ pe.desyFirst > m + 3 * I,
+                  V("C09", 0, "divergence-detected-late", <<p, pe.desyFirst, m, I>>))
+          \o DetectV(gg, p + 1)
+
 Update(gg, r) ==
   LET a == r.a IN
   IF Has(r, "r") /\ Has(r, "p") /\ a # "cfg" /\ IsPanic(r.r) THEN PanicLine(gg, r) ELSE
@@ -499,8 +534,9 @@ Update(gg, r) ==
     [] a = "mark" -> [gg EXCEPT !.marked = TRUE, !.minProgress = r.min_progress,
                                 !.pr = [p \in 0..gg.N-1 |-> [gg.pr[p] EXCEPT !.mark = gg.pr[p].cur]]]
     [] a = "end"  -> LET g1 == IF Get(r, "faults_hit", 0) > 0 THEN Bump(gg, "runsWithPlannedFault", 1) ELSE gg
-                     IN IF g1.N > 0 /\ g1.marked
-                        THEN AddViol(Bump(g1, "progressChecked", 1), ProgressV(g1, 0)) ELSE g1
+                         g2 == IF g1.N > 0 /\ g1.corrupt THEN AddViol(g1, DetectV(g1, 0)) ELSE g1
+                     IN IF g2.N > 0 /\ g2.marked
+                        THEN AddViol(Bump(g2, "progressChecked", 1), ProgressV(g2, 0)) ELSE g2
     [] a = "dlv"  -> Bump(gg, "delivered", 1)
     [] a = "drop" -> Bump(gg, "dropped", 1)
     [] a = "dup"  -> Bump(gg, "dupd", 1)
